@@ -691,6 +691,8 @@ def _reject_scenario(c, attempt):
         elif what == "duplicate":
             outs = [prog["y1"], prog["y2"], prog["y1"]]
         elif what in ("nonleaf_input", "no_grad_input"):
+            if c.get("as_parameter"):
+                prog.t["d"] = torch.nn.Parameter(prog["d"].detach(), requires_grad=False)
             lst = [prog[n] for n in c["valid"]]
             lst.insert(int(c["position"]), prog["h"] if what == "nonleaf_input" else prog["d"])
             kw["inputs"] = lst
@@ -722,6 +724,8 @@ def _reject_scenario(c, attempt):
         elif what == "nonleaf_shared_param":
             shp.insert(int(c["position"]), prog["m0"])
         elif what == "no_grad_param":
+            if c.get("as_parameter"):
+                prog.t["d"] = torch.nn.Parameter(prog["d"].detach(), requires_grad=False)
             if int(c.get("which", 0)) == 0:
                 tp[1].append(prog["d"])
             else:
